@@ -18,16 +18,17 @@ LEVEL_TEXT = ('static analysis: (D1) do_target interpreted on symbolic baits: wo
               'lost its zero-width baits is judged by label, shortened labels); shorten_labels, interpreted exhaustively on all label sequences '
               'of length <= 4 over three label shapes, yields one label per input label; (D2) get_antitargets shrinks the accessible regions by '
               '2*INSERT_SIZE = 500, pads the targets by 500 before subtracting them, subdivides by (average, minimum) and names every bin '
-              'Antitarget; the default minimum is 2*int(avg*2^MIN_REF_COVERAGE) (constants folded from params.py); (D3) the padded targets '
-              "overlap by construction: subtract()'s non-nested-subtrahend precondition is established (rule of C06-D1), and merge() itself "
-              'groups by the stated predicate and leaves nothing unmerged on its fast path (rules of C06-D3 / D3b), and subtract() itself is '
-              'exact on literal tables, keeping the accessible regions of untargeted contigs whole (C06-D1b); (D4) a region is binned <=> span >='
-              ' minimum, pieces chain from start to end (rule of C06-D5); (D5) drop_noncanonical_contigs keeps an accessible contig <=> it is '
-              'targeted or canonically named (when some target is canonical), else <=> targeted or not longer-named than the longest targeted '
-              'one. (CLI) the `target / antitarget` command line(s), through a model of argparse built from the declarations in commands.py and '
-              'the real _cmd_ body interpreted with readers, library step and writers stubbed: annotation, --short-names, --split, average and '
-              "minimum sizes reach do_target / do_antitarget and the output is written under the given or the default name. Does not decide 'at "
-              "most 1.5x the average size', coverage of every off-target stretch, or the chromosome-length heuristic.")
+              'Antitarget; the default minimum is 2*int(avg*2^MIN_REF_COVERAGE) (constants folded from params.py); (D2b) guess_chromosome_regions'
+              " on literal targets (chr2 before chr10): one row per chromosome, in table order, ending at that chromosome's own last target; (D3)"
+              " the padded targets overlap by construction: subtract()'s non-nested-subtrahend precondition is established (rule of C06-D1), and "
+              'merge() itself groups by the stated predicate and leaves nothing unmerged on its fast path (rules of C06-D3 / D3b), and subtract()'
+              ' itself is exact on literal tables, keeping the accessible regions of untargeted contigs whole (C06-D1b); (D4) a region is binned '
+              '<=> span >= minimum, pieces chain from start to end (rule of C06-D5); (D5) drop_noncanonical_contigs keeps an accessible contig '
+              '<=> it is targeted or canonically named (when some target is canonical), else <=> targeted or not longer-named than the longest '
+              'targeted one. (CLI) the `target / antitarget` command line(s), through a model of argparse built from the declarations in '
+              'commands.py and the real _cmd_ body interpreted with readers, library step and writers stubbed: annotation, --short-names, '
+              '--split, average and minimum sizes reach do_target / do_antitarget and the output is written under the given or the default name. '
+              "Does not decide 'at most 1.5x the average size', coverage of every off-target stretch, or the chromosome-length heuristic.")
 TECHNIQUE = "abstract interpretation with recorded method summaries (argument / order capture); column-write-set lint; small-scope exhaustive interpretation of shorten_labels; shared precondition and chaining rules"
 
 
@@ -215,6 +216,7 @@ def run(chk):
     d1(chk, prog)
     d2(chk, prog)
     d2b(chk, prog)
+    C06.d4(chk, prog)            # the margins themselves: resize_ranges moves both ends by the amount asked, clipped, on a copy -- the caller's targets / access table keep their coordinates (C06-D4 rule)
     chk.clause("D3", "the padded targets may overlap or nest: subtract()'s precondition is established (C06-D1 rule)")
     C06.d1(chk, prog)
     C06.d1b(chk, prog)          # the subtraction itself on literal tables (targets missing from a contig leave its accessible regions whole)
